@@ -134,7 +134,7 @@ func modeFor(prop string) (*histMode, error) {
 				return append(append(baseOracle(h, o), hist.CheckConvergence(o)...), hist.CheckCloneRoot(o)...)
 			}}, nil
 	case "C08":
-		return &histMode{flavors: all,
+		return &histMode{flavors: append(append([]string{}, all...), "tree", "treex"),
 			gen: hist.GenConfig{MinClients: 1, MaxClients: 3, MinSteps: 6, MaxSteps: 30, FailUpd: true, Undo: true},
 			oracle: func(h *hist.History, o *hist.Outcome) []hist.Problem {
 				var ps []hist.Problem
